@@ -1,6 +1,7 @@
 import ExprModel.Proofs.OptInRange
 import ExprModel.Proofs.OptReject
 import ExprModel.Proofs.OptAnnot
+import ExprModel.Proofs.CheckerAnnot
 import ExprModel.Opt.ObsEq
 import ExprModel.Gen.Pipeline
 /-
@@ -303,20 +304,20 @@ theorem constArgs_eval (fl : Flags) (ctx : Ctx) : ∀ (args : List Node) (vs : L
 /-- A node-local rewrite whose result simulates the node it replaces, in every context, is preserved by
     the bottom-up traversal (`ast.Walk` with an `Exit`-only visitor), whatever the visitor's state.
     `reOK`: a `matches` node with a pre-compiled regexp has a literal pattern (parser invariant). -/
-theorem walk_congruence (ws : Bool) (rule : Rule) (hrule : ∀ N st, Sim c (rule N st).1 N)
+theorem walk_congruence (ws : Bool) (rule : Opt.Rule) (hrule : ∀ N st, Sim c (rule N st).1 N)
     (n : Node) (hn : reOK n = true) (st : St) : Sim c (walk ws rule n st).1 n :=
   walk_sim ws rule hrule n hn st
 
-theorem walkList_congruence (ws : Bool) (rule : Rule) (hrule : ∀ N st, Sim c (rule N st).1 N)
+theorem walkList_congruence (ws : Bool) (rule : Opt.Rule) (hrule : ∀ N st, Sim c (rule N st).1 N)
     (ns : List Node) (hn : reOKList ns = true) (st : St) : SimL c (walkList ws rule ns st).1 ns :=
   walkList_sim ws rule hrule ns hn st
 
-theorem walkOpt_congruence (ws : Bool) (rule : Rule) (hrule : ∀ N st, Sim c (rule N st).1 N)
+theorem walkOpt_congruence (ws : Bool) (rule : Opt.Rule) (hrule : ∀ N st, Sim c (rule N st).1 N)
     (o : Option Node) (hn : reOKOpt o = true) (st : St) : SimO c (walkOpt ws rule o st).1 o :=
   walkOpt_sim ws rule hrule o hn st
 
 /-- … and by the `for limit …` loop, for every number of iterations -/
-theorem repeat_congruence (ws : Bool) (rule : Rule) (hrule : ∀ N st, Sim c (rule N st).1 N)
+theorem repeat_congruence (ws : Bool) (rule : Opt.Rule) (hrule : ∀ N st, Sim c (rule N st).1 N)
     (k : Nat) (n n' : Node) (hn : reOK n = true) (h : repeatPass ws rule k n = .ok n') : Sim c n' n :=
   repeatPass_sim ws rule hrule k n n' hn h
 
@@ -1031,7 +1032,7 @@ theorem fold_sound_wa (fl : Flags) (hf : fl.foldPlainOnly = true) (N : Node) (hw
 /-- the filter `g`, additionally asking fold sites to be well annotated -/
 def withWA (g : Guard) : Guard := fun p N => g p N && (p != .fold || wa N)
 
-theorem withWA_other (g : Guard) (p : Pass) (hp : p ≠ .fold) (r : Rule) : guarded (withWA g) p r = guarded g p r := by
+theorem withWA_other (g : Guard) (p : Pass) (hp : p ≠ .fold) (r : Opt.Rule) : guarded (withWA g) p r = guarded g p r := by
   funext N st
   have : (p != Pass.fold) = true := by simpa using hp
   simp only [guarded, withWA, this, Bool.true_or, Bool.and_true]
@@ -1086,5 +1087,39 @@ theorem optimize_transparent_checked_partial (fns : ConstFns) (g : Guard)
     cases r' with
     | error e => rfl
     | ok v => cases cast <;> rfl
+
+/-! ## The bridge to the type checker (C03 ↔ C02) -/
+
+/-- a tree fresh from the parser (no annotations, integer literals are Go ints) is well annotated -/
+theorem parser_tree_wellAnnotated (n : Node) (h : CheckerAnnot.fresh n = true) : wa n = true :=
+  CheckerAnnot.fresh_wa n h
+
+/-- **`checker.Check` establishes the annotation discipline the optimizer relies on** (for the checker as it
+    is since 6162013: literals are retyped for numeric parameters only): the tree it returns for a
+    well-annotated input — a parser tree, or the result of a previous check, as in `expr.Compile`, which checks
+    twice — is well annotated. -/
+theorem check_wellAnnotated (cfg : CheckCfg) (hd : cfg.dt.retypeAnyParam = false) (n n' : Node) (t : OTy)
+    (hw : wa n = true) (h : check cfg n = .ok n' t) : wa n' = true :=
+  CheckerAnnot.check_wellAnnotated cfg hd n n' t hw h
+
+/-- the checker of /repo as it is satisfies the side condition -/
+example : TDefects.asIs.retypeAnyParam = false := rfl
+
+/-- **parse → check → check → optimize**: for a parser tree that the checker accepts (twice, as `expr.Compile`
+    does), the optimised tree has exactly the result of the checked tree unless the latter exceeds the budget —
+    under the hypotheses of `optimize_transparent_checked_partial` that are not about annotations. -/
+theorem compile_pipeline_transparent_partial (cfg : CheckCfg) (hd : cfg.dt.retypeAnyParam = false)
+    (fns : ConstFns) (g : Guard) (src n1 n2 n' : Node) (t1 t2 : OTy)
+    (hsrc : CheckerAnnot.fresh src = true)
+    (hc1 : check cfg src = .ok n1 t1) (hc2 : check cfg n1 = .ok n2 t2)
+    (hg : ∀ p N, p ≠ .fold → g p N = true → GuardNow c fns p N)
+    (hgf : ∀ N, g .fold N = true → FoldRest N)
+    (hn : reOK n2 = true)
+    (hrun : optimizeWith g Flags.asIs fns c.world n2 = optimize Flags.asIs fns c.world n2)
+    (h : optimize Flags.asIs fns c.world n2 = .ok n') (cast : Option Nat) :
+    (Spec.run c cast n2).1 = .error .budget ∨ (Spec.run c cast n').1 = (Spec.run c cast n2).1 :=
+  optimize_transparent_checked_partial fns g hg hgf n2 n' hn
+    (check_wellAnnotated cfg hd n1 n2 t2 (check_wellAnnotated cfg hd src n1 t1 (parser_tree_wellAnnotated src hsrc) hc1) hc2)
+    hrun h cast
 
 end ExprModel.C02
